@@ -85,6 +85,8 @@ impl Property for C08 {
         let n = ctx.tier.pick(1_500_000, 15_000_000);
         run_tape_batches(self, ctx, "histories", n, 500, &|t| {
             let word = if t.chance(1, 20) { pick_seg(t, 0).text.clone() } else { let p = if t.chance(1, 4) { WordProfile::RICH } else { WordProfile::PLAIN }; gen_word(t, p).text() };
+            // tones typed with zero digits ("ma05", "ma1020"): zero means "no tone" and must not survive into the stored tone
+            let word = if t.chance(1, 10) { format!("{word}{}", ["50", "105", "1020", "0", "007"][t.pick(5)]) } else { word };
             let segs = match api::parse_word(&word) { Ok(Ok(pw)) => word_segs(&pw), _ => return None };
             let ng = 1 + t.weighted(&[3, 3, 2, 2, 1, 1]);
             let mut groups = vec![];
